@@ -96,7 +96,8 @@ Inductive action :=
 | DropOut (i : nat) (c : cell)       (* output.assume_init_drop() / _ = mem::zeroed::<O>() *)
 | DropIn (i : nat) (c : cell)        (* drop_input(cell) of bench_refs: assume_init_drop *)
 | CallPanic (i : nat) (r : bool) (c : cell)  (* benched(&cell i) unwinds: no output *)
-| GenPanic (i : nat).                (* gen_input() unwinds: no value *)
+| GenPanic (i : nat)                 (* gen_input() unwinds: no value *)
+| GuardWait.                         (* a barrier wait made by Drop for SampleBarrier while unwinding *)
 
 (** What the loop does with an output inside the timed section. *)
 Definition out_action (p : path) (i : nat) : action :=
@@ -218,7 +219,7 @@ Definition act_index (a : action) : option nat :=
   match a with
   | Gen i | Count _ i | ForgetIn i | Call i _ _ | UserDropIn i | StoreOut i | ForgetOut i
   | DiscardOut i | DropOut i _ | DropIn i _ | CallPanic i _ _ => Some i
-  | GenPanic _ | SyncStart | TsStart | TsEnd | SyncEnd | Snapshot => None
+  | GenPanic _ | SyncStart | TsStart | TsEnd | SyncEnd | Snapshot | GuardWait => None
   end.
 
 (** Effect of an action on the (input cell, output cell) pair it works on. *)
@@ -259,7 +260,7 @@ Definition cell_step (v : ist * ost) (a : action) : fault + ist * ost :=
       match out_drop_fault c so with Some f => inl f | None => inr (si, ODropped) end
   | DropIn _ c =>
       match in_drop_fault c si with Some f => inl f | None => inr (IDropped, so) end
-  | GenPanic _ | SyncStart | TsStart | TsEnd | SyncEnd | Snapshot => inr v
+  | GenPanic _ | SyncStart | TsStart | TsEnd | SyncEnd | Snapshot | GuardWait => inr v
   end.
 
 Definition exec_step (s : store) (a : action) : sres store :=
@@ -290,7 +291,7 @@ Definition exec_ok (l : list action) : bool :=
 Inductive oev (A : Type) :=
 | OGen (id : A)
 | OCount (k : ckind) (id : A)
-| OBarArrive (b : nat)          (* 1 = start, 2 = after clear, 0 = end *)
+| OBarArrive (b : nat)          (* 1 = start, 2 = after clear, 0 = end, 3 = by the guard while unwinding *)
 | OBarLeave (b : nat)
 | OClear
 | OTsStart
@@ -358,6 +359,7 @@ Definition obs1 (v : vis) (a : action) : list (oev nat) :=
   | DropIn i _ => if v_idrop v then [ODropIn i] else []
   | CallPanic i r _ => OCallPanic i :: (if negb r && v_idrop v then [OUDropIn i] else [])
   | GenPanic _ => [OGenPanic]
+  | GuardWait => if v_multi v then [OBarArrive 3; OBarLeave 3] else []
   end.
 
 Definition obs (v : vis) (l : list action) : list (oev nat) := flat_map (obs1 v) l.
@@ -744,18 +746,31 @@ Fixpoint cut_at_gen (k : nat) (l : list action) : list action :=
   | a :: rest => a :: cut_at_gen k rest
   end.
 
-(** What unwinding out of [sample_recorder]'s closure runs on values: nothing.
-    [DeferStore::drop] frees a [Vec] of [MaybeUninit] cells (no element
-    destructor); the thin-air cells are [MaybeUninit]; [SampleBarrier::drop]
-    only waits; the argument of a by-value call is owned by the unwinding
-    benchmarked function ([CallPanic] covers it). *)
-Definition unwind_actions : list action := [].
+(** What unwinding out of [sample_recorder]'s closure runs.  On values:
+    nothing — [DeferStore::drop] frees a [Vec] of [MaybeUninit] cells (no element
+    destructor); the thin-air cells are [MaybeUninit]; the argument of a by-value
+    call is owned by the unwinding benchmarked function ([CallPanic] covers it).
+    [Drop for SampleBarrier] performs the barrier waits of this sample that were
+    not reached: [remaining] starts at [WAIT_COUNT = 3], every [wait()] does
+    [saturating_sub(1)] ([SyncStart] waits twice, [SyncEnd] once). Without a
+    barrier ([thread_count = 1]) there is no guard: the waits are then invisible
+    (see [obs1]). *)
+Definition wait_count : nat := 3.
+
+Fixpoint remaining_waits (l : list action) (rem : nat) : nat :=
+  match l with
+  | [] => rem
+  | SyncStart :: rest => remaining_waits rest (rem - 2)
+  | SyncEnd :: rest => remaining_waits rest (rem - 1)
+  | _ :: rest => remaining_waits rest rem
+  end.
+
+Definition unwind_actions (ran : list action) : list action :=
+  repeat GuardWait (remaining_waits ran wait_count).
 
 Definition cut_prog (site : psite) (k : nat) (l : list action) : list action :=
-  match site with
-  | PanicCall => cut_at_call k l ++ unwind_actions
-  | PanicGen => cut_at_gen k l ++ unwind_actions
-  end.
+  let ran := match site with PanicCall => cut_at_call k l | PanicGen => cut_at_gen k l end in
+  ran ++ unwind_actions ran.
 
 Definition thread_log_panic (c : rcfg) (site : psite) (pt k : nat) (t : nat) : list (oev N) :=
   let n := eff_size c in
